@@ -9,6 +9,7 @@
   ALL forms, ALL field values and ALL fraction lengths.
 -/
 import DateutilVerif.Proofs.IsoRender
+import DateutilVerif.Proofs.IsoDatetime
 namespace C07
 open Iso IsoSpec Cal
 
@@ -107,6 +108,37 @@ theorem ordinaldate_inverts_yday (y m d : Int) (hv : ValidYMD y m d) :
   simp only [toOrdinal_jan, yday]
   unfold toOrdinal at o1 o2 ⊢
   omega
+
+/-- THE INVERSE LAW ON DATETIMES: for every valid datetime `t` (years 1..9999), every complete date
+    form (calendar / ISO week / ordinal, basic or extended — the fields shown are `t`'s own
+    y-m-d, `isocalendar()` or `tm_yday`), every time form with ANY list of fraction digits, every
+    offset form and value, every non-digit separator (default parser or configured with it):
+    parsing the rendering returns exactly `t` truncated to the rendered precision, with the offset
+    denoted.  `Iso.dtFields` / `Iso.truncDT` are defined in Proofs/IsoDatetime.lean. -/
+theorem isoparse_inverts_datetime (t : DT) (ht : t.Valid) (df : DateForm) (hc : df.complete = true)
+    (tf : TimeForm) (htf : tf ≠ .none) (frac : List Nat)
+    (hfrac : tf.hasFrac = true → frac ≠ [] ∧ ∀ d ∈ frac, d ≤ 9)
+    (o : OffForm) (xo : Fields) (how : offWF o xo = true) (sep : Nat) (hsep : isDigit sep = false)
+    (cfg : Option Nat) (hcfg : cfg = none ∨ cfg = some sep) :
+    isoparse cfg (render ⟨df, tf, o, sep⟩ (dtFields df t frac xo)) =
+      .ok ⟨truncDT tf frac t, offDenote o xo⟩ :=
+  isoparse_inverts_datetime_core t ht df hc tf htf frac hfrac o xo how sep hsep cfg hcfg
+
+/-- rendering the first `k ≤ 6` digits of the microsecond truncates it to that precision … -/
+theorem fraction_truncates (us k : Nat) (hus : us < 1000000) (h1 : 1 ≤ k) (h6 : k ≤ 6) :
+    fracMicros ((digits6 us).take k) = us - us % 10 ^ (6 - k) :=
+  fracMicros_take us k hus h1 h6
+
+/-- … and digits beyond the sixth are ignored (fractions beyond microseconds are truncated) -/
+theorem fraction_extra_ignored (us : Nat) (extra : List Nat) (hus : us < 1000000) :
+    fracMicros (digits6 us ++ extra) = us :=
+  fracMicros_extra us extra hus
+
+/-- the ISO year reported by `isocalendar()` for a date in 0001..9999 is itself in 1..9999, so every
+    date has a week-date rendering with a four-digit year -/
+theorem isoYear_in_range (y m d : Int) (hv : ValidDate y m d) :
+    1 ≤ (isoCalendar y m d).1 ∧ (isoCalendar y m d).1 ≤ 9999 :=
+  isoYear_range y m d hv
 
 /-! non-vacuity: concrete forms with well-formed fields -/
 example : WFields ⟨.weekExtD, .hmsfExt false, .hhcmm, 84⟩
